@@ -6,6 +6,7 @@
 #![allow(unused_imports, dead_code, non_camel_case_types, non_snake_case, unused_variables, unused_mut, unused_assignments)]
 use vstd::prelude::*;
 use std::collections::VecDeque;
+use std::ops::Range;
 use vstd::std_specs::iter::IteratorSpec;
 verus! {
 global size_of usize == 8;
@@ -38,13 +39,32 @@ impl vstd::std_specs::iter::IteratorSpecImpl for DirIter {
 }
 #[verifier::external_body] pub fn dir_iter() -> (it: DirIter) ensures it.remaining() == seq![super::code::Dir::Bi, super::code::Dir::Uni] { unimplemented!() }
 #[verifier::external_body] pub struct PendingStreamsQueue { x: u8 }
-impl PendingStreamsQueue { #[verifier::external_body] pub fn clear(&mut self) { unimplemented!() } }
+pub struct PendingStream { pub priority: i32, pub recency: u64, pub id: super::code::StreamId }
+impl PendingStreamsQueue {
+    #[verifier::external_body] pub fn clear(&mut self) { unimplemented!() }
+    /// how many entries are queued (reinserted one included)
+    pub uninterp spec fn qlen(&self) -> nat;
+    #[verifier::external_body] pub fn pop(&mut self) -> (r: Option<PendingStream>)
+        ensures r.is_some() ==> old(self).qlen() > 0 && final(self).qlen() == old(self).qlen() - 1, r.is_none() ==> final(self).qlen() == old(self).qlen(),
+            // queued ids were built by StreamId::new (index < 2^60)
+            r matches Some(p) ==> p.id.0 < 0x4000_0000_0000_0000
+    { unimplemented!() }
+    #[verifier::external_body] pub fn push_pending(&mut self, id: super::code::StreamId, priority: i32) ensures final(self).qlen() == old(self).qlen() + 1 { unimplemented!() }
+    #[verifier::external_body] pub fn reinsert_pending(&mut self, id: super::code::StreamId, priority: i32) ensures final(self).qlen() == old(self).qlen() + 1 { unimplemented!() }
+}
+impl From<super::code::StreamId> for VarInt { fn from(x: super::code::StreamId) -> (r: VarInt) ensures r.0 == x.0 { VarInt(x.0) } }
+impl vstd::std_specs::convert::FromSpecImpl<super::code::StreamId> for VarInt { open spec fn obeys_from_spec() -> bool { true } open spec fn from_spec(v: super::code::StreamId) -> VarInt { VarInt(v.0) } }
+/// bytes::BufMut for Vec<u8>, as far as write_stream_frames uses it
+pub trait BufMut { fn put_slice(&mut self, src: &[u8]); }
+impl BufMut for Vec<u8> { #[verifier::external_body] fn put_slice(&mut self, src: &[u8]) ensures final(self)@ == old(self)@ + src@ { unimplemented!() } }
+pub assume_specification<Idx: Clone> [<Range<Idx> as Clone>::clone] (r: &Range<Idx>) -> (o: Range<Idx>) ensures o == *r;
 #[verifier::external_body] pub struct StreamRecv { x: u8 }
 #[derive(Copy, Clone, PartialEq, Eq)] pub struct VarInt(pub u64);
 impl vstd::std_specs::cmp::PartialEqSpecImpl for VarInt { open spec fn obeys_eq_spec() -> bool { true } open spec fn eq_spec(&self, o: &VarInt) -> bool { *self == *o } }
 impl VarInt {
     pub const MAX: Self = Self(4611686018427387903);
     pub const fn into_inner(self) -> (r: u64) ensures r == self.0 { self.0 }
+    #[verifier::external_body] pub const fn size(self) -> (r: usize) requires self.0 < 0x4000_0000_0000_0000 ensures r == vsize(self.0) { unimplemented!() }
 }
 impl From<VarInt> for u64 { fn from(x: VarInt) -> (r: u64) ensures r == x.0 { x.0 } }
 impl vstd::std_specs::convert::FromSpecImpl<VarInt> for u64 { open spec fn obeys_from_spec() -> bool { true } open spec fn from_spec(v: VarInt) -> u64 { v.0 } }
@@ -57,11 +77,43 @@ impl TransportError {
 }
 /// the send half of a stream as far as the glue code here looks at it; `Send::reset` / `SendBuffer::unacked` are proved in units send_stream / send_buffer
 #[derive(Copy, Clone, PartialEq, Eq)] pub enum SendState { Ready, DataSent { finish_acked: bool }, ResetSent }
-pub struct SendBuffer { pub un: u64 }
-impl SendBuffer { pub fn unacked(&self) -> (r: u64) ensures r == self.un { self.un } }
-pub struct Send { pub state: SendState, pub pending: SendBuffer, pub max_data: u64, pub connection_blocked: bool }
+/// The send buffer of a stream as far as the code here looks at it.  `un` = unacked(); the remaining observers are ghost: `stored` =
+/// the bytes written and not yet acknowledged, starting at stream offset `base`; `end` = offset().  poll_transmit / get carry the
+/// clauses proved on the real SendBuffer in unit send_buffer.
+pub struct SendBuffer { pub un: u64, pub g: Ghost<(Seq<u8>, u64, u64, bool)> }
+impl SendBuffer {
+    pub open spec fn stored(&self) -> Seq<u8> { self.g@.0 }
+    pub open spec fn base(&self) -> u64 { self.g@.1 }
+    pub open spec fn end(&self) -> u64 { self.g@.2 }
+    /// SendBuffer::wf && rwf of unit send_buffer
+    pub open spec fn ok(&self) -> bool { self.g@.3 && self.base() + self.stored().len() == self.end() && self.end() < 0x4000_0000_0000_0000 }
+    pub fn unacked(&self) -> (r: u64) ensures r == self.un { self.un }
+    #[verifier::external_body] pub fn offset(&self) -> (r: u64) ensures r == self.end() { unimplemented!() }
+    #[verifier::external_body] pub fn poll_transmit(&mut self, max_len: usize) -> (res: (Range<u64>, bool))
+        requires old(self).ok(), max_len >= 8 + 8 + 1
+        ensures final(self).ok(), final(self).stored() == old(self).stored(), final(self).base() == old(self).base(), final(self).end() == old(self).end(),
+            final(self).un == old(self).un,
+            res.0.start <= res.0.end <= final(self).end(),
+            (res.0.end - res.0.start) + osize(res.0.start) + (if res.1 { 8int } else { 0int }) <= max_len,
+            !res.1 ==> (res.0.end - res.0.start) + osize(res.0.start) == max_len,
+            res.0.start < res.0.end ==> final(self).base() <= res.0.start,
+    { unimplemented!() }
+    #[verifier::external_body] pub fn get(&self, offsets: Range<u64>) -> (r: &[u8])
+        requires self.ok(), offsets.start <= offsets.end
+        ensures r@.len() <= offsets.end - offsets.start,
+            forall|j: int| 0 <= j < r@.len() ==> #[trigger] r@[j] == self.stored()[offsets.start + j - self.base()] && self.base() <= offsets.start + j < self.end(),
+            (self.base() <= offsets.start < self.end() && offsets.start < offsets.end) ==> r@.len() > 0,
+    { unimplemented!() }
+}
+/// bytes a QUIC varint takes (VarInt::size: real body under contract in unit frame_codec, all 2^62 values checked by Kani varint_roundtrip)
+pub open spec fn vsize(x: u64) -> usize { if x < 0x40 { 1 } else if x < 0x4000 { 2 } else if x < 0x4000_0000 { 4 } else { 8 } }
+pub open spec fn osize(start: u64) -> usize { if start != 0 { vsize(start) } else { 0 } }
+pub struct Send { pub state: SendState, pub pending: SendBuffer, pub max_data: u64, pub connection_blocked: bool, pub priority: i32, pub fin_pending: bool }
 impl Send {
     #[verifier::external_body] pub fn reset(&mut self) ensures final(self).state == SendState::ResetSent, final(self).pending == old(self).pending { unimplemented!() }
+    pub fn is_reset(&self) -> (r: bool) ensures r == (self.state is ResetSent) { matches!(self.state, SendState::ResetSent) }
+    /// `pending.has_unsent_data() || fin_pending`
+    #[verifier::external_body] pub fn is_pending(&self) -> (r: bool) { unimplemented!() }
     /// clauses of Send::increase_max_data proved on the real function in unit send_stream
     #[verifier::external_body] pub fn increase_max_data(&mut self, offset: u64) -> (r: bool)
         ensures final(self).max_data == (if offset > old(self).max_data && old(self).state == SendState::Ready { offset } else { old(self).max_data }),
@@ -83,6 +135,9 @@ pub fn send_entry<'a>(m: &'a mut FxHashMap<super::code::StreamId, Option<Box<Sen
 /// `self.send.get_mut(&id).and_then(|s| s.as_mut())`: an already materialised send half, if any
 #[verifier::external_body]
 pub fn send_get<'a>(m: &'a mut FxHashMap<super::code::StreamId, Option<Box<Send>>>, id: super::code::StreamId) -> (r: Option<&'a mut Send>)
+    // every Send kept in the map has a well-formed buffer (SendBuffer::wf, kept by every SendBuffer operation: unit send_buffer) and
+    // nothing queued for retransmission has been acknowledged (caller discipline, see rwf there)
+    ensures r matches Some(st) ==> st.pending.ok()
 { unimplemented!() }
 /// the peer's transport parameters, as far as StreamsState::set_params reads them
 pub struct TransportParameters {
@@ -137,6 +192,25 @@ impl Recv {
     { unimplemented!() }
 }
 pub mod frame { use super::*; pub struct Stream { pub id: super::super::code::StreamId, pub offset: u64, pub fin: bool, pub data: Bytes }
+impl Stream { pub const SIZE_BOUND: usize = 1 + 8 + 8 + 8; }
+pub struct StreamMeta { pub id: super::super::code::StreamId, pub offsets: Range<u64>, pub fin: bool }
+/// wire image of the frame header (type byte, stream id, offset unless 0, length if asked for): proved for the real encoder in unit frame_codec
+pub uninterp spec fn meta_image(m: StreamMeta, length: bool) -> Seq<u8>;
+impl StreamMeta {
+    #[verifier::external_body]
+    pub fn encode(&self, length: bool, out: &mut Vec<u8>)
+        requires self.id.0 < 0x4000_0000_0000_0000, self.offsets.start <= self.offsets.end, self.offsets.end < 0x4000_0000_0000_0000
+        ensures final(out)@ == old(out)@ + meta_image(*self, length),
+            // sizes: every varint takes VarInt::size bytes (Kani: varint_roundtrip, all values)
+            meta_image(*self, length).len() == 1 + vsize(self.id.0) + osize(self.offsets.start) + (if length { vsize((self.offsets.end - self.offsets.start) as u64) as int } else { 0int }),
+    { unimplemented!() }
+}
+#[verifier::external_body] pub struct StreamMetaVec { x: u8 }
+impl View for StreamMetaVec { type V = Seq<StreamMeta>; uninterp spec fn view(&self) -> Seq<StreamMeta>; }
+impl StreamMetaVec {
+    #[verifier::external_body] pub fn new() -> (r: Self) ensures r@ == Seq::<StreamMeta>::empty() { unimplemented!() }
+    #[verifier::external_body] pub fn push(&mut self, m: StreamMeta) ensures final(self)@ == old(self)@.push(m) { unimplemented!() }
+}
 pub struct ResetStream { pub id: super::super::code::StreamId, pub error_code: VarInt, pub final_offset: VarInt } }
 /// what the map holds for `id` once a lazily created Recv has been materialised (None: no such stream)
 pub uninterp spec fn recv_abs(m: FxHashMap<super::code::StreamId, Option<StreamRecv>>, id: super::code::StreamId) -> Option<Recv>;
@@ -175,7 +249,7 @@ pub proof fn lemma_stream_id_bits(index: u64, d: u64, s: u64)
 }
 }
 pub mod code {
-use super::*; use super::shims::*;
+use super::*; use super::shims::*; use super::shims::frame::StreamMetaVec;
 
 //@ extract quinn-proto/src/lib.rs :: enum Side
 //@ end
@@ -286,6 +360,54 @@ impl StreamsState {
             final(self).max_data == old(self).max_data, final(self).data_sent == old(self).data_sent, final(self).unacked_data == old(self).unacked_data,
     { unimplemented!() }
 
+//@ extract quinn-proto/src/connection/streams/state.rs :: impl StreamsState::fn write_stream_frames
+//@ props C01 C13 C10
+//@ ret r
+//@ attr #[verifier::rlimit(100)]
+//@ replace self.send.get_mut(&id).and_then(|s| s.as_mut()) => send_get(&mut self.send, id)
+//@ contract
+        requires old(buf)@.len() <= max_buf_size, max_buf_size <= 0x7fff_ffff_ffff_0000,
+        ensures
+            // STREAM frames never take the packet past the space it was given, and what was already in it is untouched
+            final(buf)@.len() <= max_buf_size,
+            final(buf)@.len() >= old(buf)@.len(), final(buf)@.take(old(buf)@.len() as int) == old(buf)@,
+            // every frame reported to the caller is a well-formed range
+            forall|i: int| 0 <= i < r@.len() ==> (#[trigger] r@[i]).offsets.start <= r@[i].offsets.end,
+//@ at-start
+        let ghost maxb = max_buf_size;
+        let ghost buf0 = buf@;
+        let ghost mut nolen = false;
+//@ loop 0
+            invariant
+                max_buf_size == maxb, maxb <= 0x7fff_ffff_ffff_0000, buf@.len() <= maxb, buf@.len() >= buf0.len(), buf@.take(buf0.len() as int) == buf0, buf0 == old(buf)@,
+                forall|i: int| 0 <= i < stream_frames@.len() ==> (#[trigger] stream_frames@[i]).offsets.start <= stream_frames@[i].offsets.end,
+                // a frame written without a length field runs to the end of the packet: nothing may follow it
+                nolen ==> buf@.len() == maxb,
+            decreases maxb - buf@.len(), self.pending.qlen()
+//@ loop-start 0
+            let ghost l0 = buf@.len();
+//@ after meta.encode(
+            let ghost lm = buf@.len();
+            let ghost bufm = buf@;
+            proof {
+                assert(lm == l0 + 1 + vsize(id.0) + osize(meta.offsets.start) + (if encode_length { vsize((meta.offsets.end - meta.offsets.start) as u64) as int } else { 0int }));
+            }
+//@ loop 1
+                invariant
+                    meta.offsets.start <= offsets.start <= offsets.end, offsets.end == meta.offsets.end,
+                    stream.pending.ok(), offsets.end <= stream.pending.end(), offsets.start < offsets.end ==> stream.pending.base() <= offsets.start,
+                    buf@.len() == lm + (offsets.start - meta.offsets.start),
+                    buf@.take(lm as int) == bufm,
+                    // C01: the payload of the frame is what the stream stores at these offsets
+                    meta.offsets.start < offsets.start ==> stream.pending.base() <= meta.offsets.start,
+                    buf@.skip(lm as int) =~= stream.pending.stored().subrange(meta.offsets.start - stream.pending.base(), offsets.start - stream.pending.base()) || meta.offsets.start == offsets.start,
+                decreases offsets.end - offsets.start
+//@ after stream_frames.push(meta);
+            proof {
+                nolen = !encode_length;
+                assert(buf@.take(buf0.len() as int) =~= buf0) by { assert(bufm.take(buf0.len() as int) == buf0); }
+            }
+//@ end
 //@ extract quinn-proto/src/connection/streams/state.rs :: impl StreamsState::fn received_max_stream_data
 //@ props C05 C03
 //@ ret res
